@@ -421,10 +421,14 @@ func (c *ComputedStyle) cascadeValue(key pr.PropKey) (value pr.DeclaredValue, sa
 	parent_style := c.parentStyle
 	if rawTokens, isPending := value.(pr.RawTokens); isPending { // Property with pending values, validate them.
 		var solvedTokens []Token
+		unresolvedInFunction := false
 		for _, token := range rawTokens {
 			tokens, valid := resolveVar(c.variables, token)
 			if !valid { // invalid at computed-value time
 				solvedTokens = nil
+				if fn, isFn := token.(pa.FunctionBlock); isFn && utils.AsciiLower(fn.Name) != "var" {
+					unresolvedInFunction = true
+				}
 				break
 			}
 			if tokens == nil {
@@ -434,7 +438,9 @@ func (c *ComputedStyle) cascadeValue(key pr.PropKey) (value pr.DeclaredValue, sa
 			}
 		}
 		var err error
-		if len(solvedTokens) == 0 {
+		if unresolvedInFunction {
+			err = errors.New("invalid value (unresolved var() in a function)")
+		} else if len(solvedTokens) == 0 {
 			err = errors.New("no value")
 		} else if shortand != 0 {
 			// the tokens must be expanded (shortand are never variable)
